@@ -757,8 +757,8 @@ func parse_variable(tokens []*Token, token_index int) (*AstVariable, int, error)
 }
 
 func parse_sub_expression(tokens []*Token, token_index int) (*AstSubExpr, int, error) {
-	current_token := tokens[token_index+1]
-	current_index := token_index + 1
+	current_index := consumeIgnoreableTokens(tokens, token_index+1)
+	current_token := tokens[current_index]
 	expr_list := []AstExpression{}
 
 	for current_token.TokenType != CLOSEPAREN && current_token.TokenType != FIND && current_token.TokenType != REPLACE && current_token.TokenType != SET && current_token.TokenType != EOF {
@@ -782,8 +782,8 @@ func parse_sub_expression(tokens []*Token, token_index int) (*AstSubExpr, int, e
 }
 
 func parse_subroutine(tokens []*Token, token_index int) (*AstSub, int, error) {
-	current_token := tokens[token_index+1]
-	current_index := token_index + 1
+	current_index := consumeIgnoreableTokens(tokens, token_index+1)
+	current_token := tokens[current_index]
 	expr_list := []AstExpression{}
 
 	for current_token.TokenType != CLOSECURLY && current_token.TokenType != FIND && current_token.TokenType != REPLACE && current_token.TokenType != SET && current_token.TokenType != EOF {
